@@ -399,6 +399,15 @@ func (x *Exec) eqSpec(a, b Val) *Term {
 		}
 	}
 	if pa, ok := a.(*PtrV); ok {
+		if pa.Kind != PObj || len(pa.Path) > 0 {
+			// an interior pointer is never nil
+			if pb, ok := b.(*PtrV); ok && pb.Kind == PObj && len(pb.Path) == 0 && pb.Base.S == "0" {
+				return tFalse
+			}
+			if sb, ok := b.(*Scalar); ok && sb.t.S == "0" {
+				return tFalse
+			}
+		}
 		if sb, ok := b.(*Scalar); ok {
 			return eq(x.ptrTerm(pa), sb.t)
 		}
